@@ -267,6 +267,11 @@ func (p *poller) readWriteLoop() {
 					if ev.Events&epollEventsWrite != 0 {
 						if c.onConnected == nil {
 							_ = c.flush()
+							// Re-arm the one-shot event if data is still cached;
+							// a reading event re-arms it after reading.
+							if isOneshot && ev.Events&epollEventsRead == 0 {
+								c.ResetPollerEvent()
+							}
 						} else {
 							c.onConnected(c, nil)
 							c.onConnected = nil
